@@ -1586,20 +1586,23 @@ Qed.
 (* 8. Every token the printer writes is one the lexer reads back; single blanks are always safe  *)
 (* ------------------------------------------------------------------------------------------- *)
 
-Lemma raw_ok_escape q : xl_is_quote q = true -> forall s pb,
-  pp_raw_ok q pb (pp_escape s) = negb (xl_last_bsl pb s).
+Lemma raw_ok_escape q : xl_is_quote q = true -> forall s, pp_raw_ok q false (pp_escape s) = true.
 Proof.
-  intros Hq. induction s as [|c s IH]; intro pb; [reflexivity|].
-  cbn [pp_escape xl_last_bsl]. destruct (pp_must_escape c) eqn:E.
+  intros Hq. induction s as [|c s IH]; [reflexivity|].
+  cbn [pp_escape]. destruct (pp_must_escape c) eqn:E.
   - cbn [pp_raw_ok]. assert (Hb : Byte.eqb XBSL q = false).
     { unfold xl_is_quote in Hq. apply orb_true_iff in Hq. destruct Hq as [H|H]; apply byte_eqb_eq in H; subst; reflexivity. }
-    rewrite Hb. cbn [andb]. change (xl_is_bsl XBSL) with true.
+    rewrite Hb. cbn [andb]. change (xl_esc_next false XBSL) with true.
     replace (if Byte.eqb c q then true else true) with true by (destruct (Byte.eqb c q); reflexivity).
-    cbn [andb]. apply IH.
+    cbn [andb]. replace (xl_esc_next true c) with false by (unfold xl_esc_next; destruct (xl_is_bsl c); reflexivity).
+    exact IH.
   - cbn [pp_raw_ok]. assert (Hc : Byte.eqb c q = false).
     { apply byte_eqb_neq. intro Heq. subst c. unfold pp_must_escape in E. rewrite Hq in E.
       rewrite orb_true_r in E. discriminate. }
-    rewrite Hc. cbn [andb]. apply IH.
+    rewrite Hc. cbn [andb].
+    assert (Hn : xl_is_bsl c = false).
+    { unfold pp_must_escape in E. apply orb_false_iff in E. destruct E as [E _]. apply orb_false_iff in E. tauto. }
+    unfold xl_esc_next. rewrite Hn. exact IH.
 Qed.
 
 Definition all_ok (q : byte) (ts : list xtok) : Prop := Forall (fun t => pp_tok_ok q t = true) ts.
@@ -1642,6 +1645,8 @@ Hypothesis Hq : xl_is_quote q = true.
 
 Lemma ppar_ok n e : all_ok q (pp px e) -> all_ok q (ppar px n e).
 Proof. intro H. unfold ppar. destruct ((pp_level e <? n) || px e); ok_tac. Qed.
+Lemma pdot_ok e : all_ok q (pp px e) -> all_ok q (pdot px e).
+Proof. intro H. unfold pdot. destruct ((pp_level e <? pp_lv_postfix) || px e || pp_dot_open e); ok_tac. Qed.
 
 Lemma map_ppar_ok es : Forall (fun e => pp_wf e = true -> all_ok q (pp px e)) es -> forallb pp_wf es = true ->
   Forall (all_ok q) (map (ppar px 0) es).
@@ -1673,12 +1678,11 @@ Proof.
       constructor; [|constructor]. cbn [pp_tok_ok]. destruct (pp_dec (Z.to_N z)) as [|c v] eqn:E; [congruence|].
       rewrite <- E in *. apply forallb_forall. intros d Hin. rewrite Forall_forall in Hall.
       destruct (Hall d Hin) as [k [Hk ->]]. apply (digit_facts k Hk).
-    + cbn [pp_wf] in Hwf. constructor; [|constructor]. cbn [pp_tok_ok].
-      rewrite (raw_ok_escape q Hq). exact Hwf.
+    + constructor; [|constructor]. cbn [pp_tok_ok]. apply (raw_ok_escape q Hq).
   - cbn [pp pp_wf] in *. unfold pp_name_ok in Hwf. apply andb_true_iff in Hwf. destruct Hwf as [Hi _].
     constructor; [exact Hi|constructor].
-  - cbn [pp_wf] in Hwf. apply andb_true_iff in Hwf. destruct Hwf as [Hwf Ha].
-    apply andb_true_iff in Hwf. destruct Hwf as [_ Hwb]. rewrite pp_EAttr. specialize (IHb Hwb). ok_tac.
+  - cbn [pp_wf] in Hwf. apply andb_true_iff in Hwf. destruct Hwf as [Hwb Ha]. rewrite pp_EAttr. specialize (IHb Hwb).
+    apply all_ok_app; [destruct (pp_is_chain b); [exact IHb|apply pdot_ok, IHb]|ok_tac].
   - cbn [pp_wf] in Hwf. apply andb_true_iff in Hwf. destruct Hwf as [Hwb Hwi]. rewrite pp_EItem.
     apply all_ok_app; [apply ppar_ok, IHb, Hwb|]. apply all_ok_cons; [reflexivity|].
     apply all_ok_app; [apply ppar_ok, IHi, Hwi|ok_tac].
@@ -1705,9 +1709,8 @@ Proof.
     unfold pp_name_ok in Hfn. apply andb_true_iff in Hfn. destruct Hfn as [Hi _].
     apply all_ok_cons; [exact Hi|apply pargs_ok; assumption].
   - cbn [pp_wf] in Hwf. apply andb_true_iff in Hwf. destruct Hwf as [Hwf Hwes].
-    apply andb_true_iff in Hwf. destruct Hwf as [Hwf Hfn].
-    apply andb_true_iff in Hwf. destruct Hwf as [_ Hwm]. rewrite pp_EModCall.
-    apply all_ok_app; [apply IHm, Hwm|]. apply all_ok_cons; [reflexivity|].
+    apply andb_true_iff in Hwf. destruct Hwf as [Hwm Hfn]. rewrite pp_EModCall.
+    apply all_ok_app; [destruct (pp_is_chain m); [apply IHm, Hwm|apply pdot_ok, IHm, Hwm]|]. apply all_ok_cons; [reflexivity|].
     apply all_ok_cons; [exact Hfn|apply pargs_ok; assumption].
   - cbn [pp_wf] in Hwf. apply andb_true_iff in Hwf. destruct Hwf as [Hwf Hwes].
     apply andb_true_iff in Hwf. destruct Hwf as [Hwf _].
